@@ -280,7 +280,7 @@ func main() {
 	r.Require(r.Counter("stdio_clients_closed") > 0, "no stdio close stress")
 	r.Require(r.Counter("http_error_answers_delivered") >= 500 && r.Counter("errstatus_classes_measured") >= 100 && r.Counter("errstatus_errors_returned") > 0,
 		"calls ending with an HTTP error answer: only %d answers delivered, %d classes measured, %d errors returned", r.Counter("http_error_answers_delivered"), r.Counter("errstatus_classes_measured"), r.Counter("errstatus_errors_returned"))
-	r.Finish("cases = (client kind in {S-json, S-sse, L-sse (legacy), stdio}) x (fault kind in {close, rst, stall, truncate; kill -9 / SIGTERM / exit / SIGSTOP / close-stdout for stdio; cancel, deadline; delayed / withheld terminating chunk}) x (point: every message boundary of the exchange - before the request is forwarded, after the request, after the response headers / the 202, between SSE events, before the final event, before the terminating chunk, on the legacy stream before / after the endpoint event, while calls are pending, before / after the answer event; stdio: before the first call, while pending, between calls, before / inside / after the response line - exhaustively; byte offsets inside request, response head, body / event: first byte, last byte and seeded samples) x pending calls in {1, 2, 8}, for target = the call, the Initialize handshake, and the client's listening stream; plus yield-controlled schedules of the three known races and the server side (N, 2N peers with listening streams, running handlers and pending server requests vanish by close / FIN / RST). Oracle per call: returns within 10 s of the fault (else goroutine dump must show it parked in the library), outcome is an error or the call's own complete answer (nonce + digest + length), context errors for cancellation; per case: Close returns, pending tables empty, and goroutines with library frames / persistConn loops / fds / child processes at quiescence do not grow case after case of the same class. Distinct = (kind, target, fault@point, pending count, outcome class) with the fault actually delivered.",
+	r.Finish("cases = (client kind in {S-json, S-sse, L-sse (legacy), stdio}) x (fault kind in {close, rst, stall, truncate; kill -9 / SIGTERM / exit / SIGSTOP / close-stdout for stdio; cancel, deadline; delayed / withheld terminating chunk}) x (point: every message boundary of the exchange - before the request is forwarded, after the request, after the response headers / the 202, between SSE events, before the final event, before the terminating chunk, on the legacy stream before / after the endpoint event, while calls are pending, before / after the answer event; stdio: before the first call, while pending, between calls, before / inside / after the response line - exhaustively; byte offsets inside request, response head, body / event: first byte, last byte and seeded samples) x pending calls in {1, 2, 8}, for target = the call, the Initialize handshake, and the client's listening stream; plus yield-controlled schedules of the three known races and the server side (N, 2N peers with listening streams, running handlers and pending server requests vanish by close / FIN / RST). Oracle per call: returns within 10 s of the fault (else goroutine dump must show it parked in the library), outcome is an error or the call's own complete answer (nonce + digest + length), context errors for cancellation; per case: Close returns, pending tables empty, and goroutines with library frames / persistConn loops / fds / child processes at quiescence do not grow case after case of the same class. Distinct = (kind, target, fault@point, pending count, outcome class) with the fault actually delivered. HTTP error answers (errstatus batches): (client kind in {S-json, S-sse, L-sse}) x (operation in {tools/call + tools/list, initialize, notification, open of the listening / event stream, DELETE of TerminateSession, the client's POST of its answer to a server-issued roots/list}) x (answer in {4xx / 5xx with JSON / text / HTML / SSE body framed by Content-Length, chunked, large, to-EOF, empty, chunked-never-finished; response head never finished / no answer at all; 202 / 204 where a result was expected; 200 of the wrong content type; 301..308 redirects ending in an error page; 429 / 5xx with client retries}) given by a gateway (the proxy answers itself), plus the library server's own 404 (session terminated on the server, unknown path) and 400 (session id dropped). Per class: baseline, n operations + Close, 2n more + Close; half of the callers never cancel their context. Oracle: each operation returns, never with a value that is not its own answer; pending table empty; goroutines with library frames / persistConn loops / fds / connections still seen open by the proxy must not be above the previous level both after n and after 2n more (and still after a longer wait). A class counts only when all its error answers reached the client.",
 		[]string{
 			"byte offsets and cancellation instants are sampled (seeded, fixed counts); message boundaries x fault kinds x transports x pending counts are enumerated completely",
 			"'during connect' is approximated by holding the request inside the proxy (TCP accept is done by the kernel)",
@@ -288,6 +288,8 @@ func main() {
 			"leaks are judged on counts at quiescence that grow in at least two cases of a class and are still present at the end of the batch; pooled idle keep-alive connections are dropped with CloseIdleConnections first",
 			"every caller cancels its context once its call has returned, except in the ssedone batches where never-cancelled contexts (context.Background()) are used on purpose",
 			"legacy SSE server: server-issued requests from handlers are not driven on the server side (handler contexts are detached there by design and the request ends by its 30 s timeout)",
+			"HTTP error answers: an answer whose body / head never ends is only given to operations that run under the caller's deadline (the client's POST of an answer to a server-issued request runs on a detached 30 s context by design and is excluded from those); 2xx answers to legacy-transport POSTs are acceptances, not error answers, and are not injected there",
+			"the relay propagates the client's FIN / RST to the server side while an answer is awaited or relayed, as a plain TCP path does; 'connections seen by the peer' are the relay's open connections after Close and CloseIdleConnections",
 			"the 10 s / 12 s watchdogs are bounded-progress restatements of 'promptly' / 'returns'; a watchdog alone yields INCONCLUSIVE",
 		})
 }
